@@ -83,7 +83,12 @@ enum Call {
     SendTBig(usize, u8),
     SendOptTBig(usize, u8),
     RecvTBig(usize, u8),
+    /// a registered (pending) future is leaked with `mem::forget`: legal, its memory stays valid, it is never polled
+    /// or dropped again and no longer borrows its handle; its entry stays in the wait list ("ghost")
+    SFutForget(usize),
+    RFutForget(usize),
 }
+static FORGET: std::sync::atomic::AtomicBool = std::sync::atomic::AtomicBool::new(false);
 fn big(k: u8) -> Duration {
     if k == 0 {
         Duration::from_secs(3600)
@@ -145,6 +150,10 @@ struct World<T: Payload> {
     step: usize,
     trace: Vec<String>,
     pat: u64,
+    /// leaked pending futures: (operation id, waker it was last polled with)
+    ghosts: Vec<(OpId, usize)>,
+    /// values that ended up inside leaked futures: never destroyed, by the program's own doing
+    leaked_tags: HashSet<Tag>,
 }
 
 type V = Result<(), String>;
@@ -201,6 +210,8 @@ impl<T: Payload> World<T> {
             step: 0,
             trace: vec![],
             pat,
+            ghosts: vec![],
+            leaked_tags: HashSet::new(),
         }
     }
     fn mk(&mut self) -> (T, Tag) {
@@ -361,6 +372,26 @@ impl<T: Payload> World<T> {
                 }
             }
         }
+        if FORGET.load(std::sync::atomic::Ordering::Relaxed) && self.ghosts.len() < 3 {
+            for (f, x) in self.sfuts.iter().enumerate() {
+                if let Some(x) = x {
+                    if let MF::Waiting(id) = x.st {
+                        if !self.comp.contains_key(&id) {
+                            c.push(Call::SFutForget(f));
+                        }
+                    }
+                }
+            }
+            for (f, x) in self.rfuts.iter().enumerate() {
+                if let Some(x) = x {
+                    if let MF::Waiting(id) = x.st {
+                        if !self.comp.contains_key(&id) {
+                            c.push(Call::RFutForget(f));
+                        }
+                    }
+                }
+            }
+        }
         c
     }
 
@@ -388,6 +419,15 @@ impl<T: Payload> World<T> {
             for f in self.streams.iter().flatten() {
                 if f.st == MF::Waiting(id) {
                     w = Some(f.waker);
+                }
+            }
+            for (gid, gw) in &self.ghosts {
+                if *gid == id {
+                    // a leaked future is completed (and its waker invoked) like any other waiter
+                    w = Some(*gw);
+                    if let Completion::Got(t) = c {
+                        self.leaked_tags.insert(t);
+                    }
                 }
             }
             if let Some(w) = w {
@@ -658,6 +698,26 @@ impl<T: Payload> World<T> {
                 let owner = fu.owner;
                 guarded(move || drop(fu)).map_err(|_| unexpected_panic())?;
                 self.senders[owner].as_mut().unwrap().1 -= 1;
+            }
+            Call::SFutForget(f) => {
+                let fu = self.sfuts[f].take().unwrap();
+                if let MF::Waiting(id) = fu.st {
+                    self.ghosts.push((id, fu.waker));
+                }
+                // the value travels with the leaked future: destroyed by a receiver if it is ever taken, never otherwise
+                self.leaked_tags.insert(fu.tag);
+                let owner = fu.owner;
+                std::mem::forget(fu);
+                self.senders[owner].as_mut().unwrap().1 -= 1;
+            }
+            Call::RFutForget(f) => {
+                let fu = self.rfuts[f].take().unwrap();
+                if let MF::Waiting(id) = fu.st {
+                    self.ghosts.push((id, fu.waker));
+                }
+                let owner = fu.owner;
+                std::mem::forget(fu);
+                self.receivers[owner].as_mut().unwrap().1 -= 1;
             }
             Call::CloneS(i, fl) => {
                 self.m.clone_sender();
@@ -1136,7 +1196,8 @@ impl<T: Payload> World<T> {
         if l.bad_count() > 0 {
             return Err(format!("end of sequence: ledger: {}", l.bad_desc()));
         }
-        let u = l.unbalanced();
+        // values inside leaked futures are never destroyed (unless a receiver took them): not the channel's doing
+        let u: Vec<_> = l.unbalanced().into_iter().filter(|(t, b, d)| !(self.leaked_tags.contains(t) && d < b)).collect();
         if !u.is_empty() {
             let (t, b, d) = u[0];
             return Err(format!(
@@ -1292,7 +1353,7 @@ fn report(class: &str, cap: Option<usize>, actor: bool, choices: &[usize], e: &(
     let replay = if matches!(class, "reentrant" | "plain" | "Z") {
         "seqdiff --depth 0 --random 0 --bigfill q".to_string()
     } else {
-        format!("seqdiff --replay --class {} --cap {} --actor {} --choices {}{}", class, cap_name(cap), actor as u8, choices_str(choices), if wide() { " --wide 1" } else { "" })
+        format!("seqdiff --replay --class {} --cap {} --actor {} --choices {}{}", class, cap_name(cap), actor as u8, choices_str(choices), format!("{}{}", if wide() { " --wide 1" } else { "" }, if FORGET.load(std::sync::atomic::Ordering::Relaxed) { " --forget 1" } else { "" }))
     };
     let v = J::O(vec![
         ("engine".into(), J::s("seqdiff")),
@@ -1938,6 +1999,7 @@ fn main() {
     let casefile = a.get("casefile").cloned();
     let bigcaps = kverif::arg_u64(&a, "bigcaps", 0) != 0;
     let wide_arg = !a.contains_key("replay") && kverif::arg_u64(&a, "wide", 0) != 0;
+    FORGET.store(kverif::arg_u64(&a, "forget", 0) != 0, std::sync::atomic::Ordering::Relaxed);
     let bigfill = kverif::arg_str(&a, "bigfill", "").to_string();
     let classes_arg = kverif::arg_str(&a, "classes", "P8,PB,L40,LS,S4,S1,Z0,ZA,L16,N8,N40,N4,A32").to_string();
     let classes: Vec<&str> = classes_arg.split(',').collect();
